@@ -99,7 +99,10 @@ def family_alphabets(tier):
                     new("eA", ri + "GenEOS_Solver", num_int_pts=301, num_x_pts=801),
                     call("iA", [0.1, 0.4, 0.6, 0.8, 0.95], 0.1), call("iA", [0.1, 0.4, 0.6, 0.8, 0.95], 0.2), call("iA", [0.3, 0.7], 0.1),
                     call("iB", [0.1, 0.4, 0.6, 0.8, 0.95], 0.1), call("eA", [0.1, 0.4, 0.6, 0.8, 0.95], 0.1),
-                    call("eA", [0.3, 0.7], 0.2)]
+                    call("eA", [0.3, 0.7], 0.2),
+                    # a late time at which the waves have left the declared window [xmin, xmax] (the solvers then widen their internal
+                    # grid): an early-time call after it must not see the widened grid (seeded change S2-C10-2)
+                    call("eA", [0.1, 0.4, 0.6, 0.8, 0.95], 0.6), call("iA", [0.1, 0.4, 0.6, 0.8, 0.95], 0.6)]
     # dB is a vacuum-type problem (omega above the singular value) so the per-call vacuum-boundary attributes are in play;
     # it is called at two times with points between the two vacuum radii (added after the seeded change S-C06-2)
     F["sedov"] = [new("dA", "sedov.sedov.Sedov"), new("dB", "sedov.sedov.Sedov", geometry=2, gamma=1.4, omega=1.7, rho0=2.5, eblast=3.0),
@@ -124,12 +127,12 @@ def family_alphabets(tier):
     F["burn"] = [new("k2", "kenamond.kenamond2.Kenamond2"), new("k3", "kenamond.kenamond3.Kenamond3"),
                  new("k3b", "kenamond.kenamond3.Kenamond3", x_d=[4.0, 3.0], D=1.0),
                  new("k2b", "kenamond.kenamond2.Kenamond2", dets=[9.0, 6.0, -4.0, -11.0], t_d=[2.5, 1.0, 0.0, 1.5, 2.0], R=2.0),
-                 call("k2b", [[4.0, 1.0], [0.5, 0.5], [-6.0, 2.0]], 0.0),
+                 call("k2b", [[4.0, 1.0], [0.5, 0.5], [-6.0, 2.0], [0.3, 5.5], [0.2, -9.0], [1.0, 9.5]], 0.0),
                  new("cx", "dsd.cylexpansion.CylindricalExpansion"),
-                 call("k2", [[4.0, 1.0], [0.5, 0.5], [-6.0, 2.0]], 0.0), call("k3", [[4.0, 1.0], [-3.5, -2.0], [0.0, -6.0]], 0.0),
+                 call("k2", [[4.0, 1.0], [0.5, 0.5], [-6.0, 2.0], [0.3, 5.5], [0.2, -9.0], [1.0, 9.5]], 0.0), call("k3", [[4.0, 1.0], [-3.5, -2.0], [0.0, -6.0]], 0.0),
                  # a second request of the same shape with other points on the same objects (a memo keyed on the identity or the
                  # shape of the points array: seeded change S2-C06-3)
-                 call("k2", [[-4.0, 2.5], [1.5, -0.5], [7.0, 1.0]], 0.0), call("k3", [[5.0, -1.0], [-3.2, 2.0], [1.0, 6.5]], 0.0),
+                 call("k2", [[-4.0, 2.5], [1.5, -0.5], [7.0, 1.0], [0.5, 6.5], [0.1, -4.5], [2.0, -10.5]], 0.0), call("k3", [[5.0, -1.0], [-3.2, 2.0], [1.0, 6.5]], 0.0),
                  call("k3b", [[4.0, 1.0], [-3.5, -2.0], [0.0, -6.0]], 0.0), call("cx", [[1.2, 0.0], [0.0, 1.7], [1.5, 1.5]], 0.0)]
     return F
 
@@ -166,7 +169,7 @@ BATCH_SOLVERS = [
     ("Cog1", "cog.cog1.Cog1", {}, [0.3, 0.7, 1.1, 1.9, 2.6], 9.0, 1.1, "exact"),
     ("PlanarSandwich", "heat.planar_sandwich.PlanarSandwich", {"Nsum": 200}, [0.1, 0.5, 1.0, 1.5, 1.9], 2.0, 0.1, "exact"),
     ("Kenamond1", "kenamond.kenamond1.Kenamond1", {"x_d": [1.5, -0.5], "D": 2.5, "t_d": 0.7}, [[1.0, 1.0], [2.0, -1.0], [0.5, 3.0], [-2.0, 0.0], [4.0, 4.0]], [9.0, 9.0], 0.0, "exact"),
-    ("Kenamond2", "kenamond.kenamond2.Kenamond2", {}, [[4.0, 1.0], [0.5, 0.5], [-6.0, 2.0], [1.0, -2.0], [8.0, 0.5]], [12.0, 1.0], 0.0, "exact"),
+    ("Kenamond2", "kenamond.kenamond2.Kenamond2", {}, [[4.0, 1.0], [0.5, 0.5], [0.3, 5.5], [0.2, -9.0], [1.0, 9.5]], [0.4, -5.5], 0.0, "exact"),
     ("Kenamond3", "kenamond.kenamond3.Kenamond3", {}, [[4.0, 1.0], [-3.5, -2.0], [0.0, -6.0], [3.1, 0.2], [-1.0, 7.0]], [9.0, 9.0], 0.0, "exact"),
     ("CylindricalExpansion", "dsd.cylexpansion.CylindricalExpansion", {}, [[1.2, 0.0], [0.0, 1.7], [1.5, 1.5], [2.0, 0.0], [-2.2, 1.0]], [5.0, 5.0], 0.0, "exact"),
     ("Sedov", "sedov.sedov.Sedov", {}, [0.45, 0.6, 0.75, 0.9, 1.2], 2.0, 1.0, "grid"),
@@ -507,7 +510,9 @@ EXTRA_NEIGHBOURS = {
     # one set of left/right states under three equations of state (a table cached under a key that omits the EOS: seeded change S2-C04-2)
     "GenEOS_eos": ("riemann.ep_riemann.GenEOS_Solver", _SHYUE, {"problem": ["JWL", "igeos"], "A": [8.545, 4.2725]}, [20.0, 40.0, 60.0, 80.0], 12.0),
 }
-KENAMOND2_POINTS = {2: [[4.0, 1.0], [0.5, 0.5], [-6.0, 2.0]], 3: [[0.3, 4.0, 1.0], [0.2, 0.5, 0.5], [1.0, -6.0, 2.0]]}
+# points lit first by each of the five detonators (outer ones sit on the last coordinate's axis at +-5, +-10)
+KENAMOND2_POINTS = {2: [[4.0, 1.0], [0.5, 0.5], [0.3, 5.5], [0.2, -9.0], [1.0, 9.5], [0.4, -5.5]],
+                    3: [[0.3, 4.0, 1.0], [0.2, 0.5, 0.5], [0.1, 0.3, 5.5], [0.1, 0.2, -9.0], [0.5, 1.0, 9.5], [0.2, 0.4, -5.5]]}
 
 
 def neighbour_families(tier):
